@@ -27,11 +27,12 @@ def run_cases(job):
         t.sign_and_update()
         pre = {'ins': total, 'outs': [[int(o.value), bool(o.change)] for o in t.outputs]}
         kw = {} if mode == 'default' else ({'fee': fee0 + amount} if mode == 'fee' else {'extra_fee': amount})
-        rec = {'pre': pre, 'fee': kw.get('fee', -1), 'extra': kw.get('extra_fee', -1), 'refused': False, 'post': pre, 'err': '',
+        rec = {'pre': pre, 'nums': [int(o.output_n) for o in t.outputs], 'fee': kw.get('fee', -1), 'extra': kw.get('extra_fee', -1), 'refused': False, 'post': pre, 'err': '',
                'case': [wt, list(pay), list(changes), mode, amount, seed]}
         try:
             t.bumpfee(**kw)
             rec['post'] = {'ins': int(sum(i.value for i in t.inputs)), 'outs': [[int(o.value), bool(o.change)] for o in t.outputs]}
+            rec['nums'] = [int(o.output_n) for o in t.outputs]
             rec['reported_fee'] = int(t.fee)
             try:
                 rec['verified'] = bool(t.verify())
@@ -67,7 +68,7 @@ def run_section(ck, thorough, replay=None):
         jobs = [(common.seed() % 1000 + i, cases[i::8]) for i in range(8)]
     results = common.pmap(run_cases, jobs)
     flat = [r for res in results for r in res]
-    verdicts = common.tlc_eval('FeeBumpEval', [{k: r[k] for k in ('pre', 'post', 'fee', 'extra', 'refused')} for r in flat])
+    verdicts = common.tlc_eval('FeeBumpEval', [{k: r[k] for k in ('pre', 'post', 'fee', 'extra', 'refused', 'nums')} for r in flat])
     for r, v in zip(flat, verdicts):
         ck.case(('feebump', len(r['pre']['outs']) - 1, r['case'][3], r['refused'], v['v']))
         case = {'feebump': r['case']}
